@@ -215,8 +215,14 @@ def w_ftables(job):
     spec = job.get('tok', ['ws', True])
     g = dict(job['gen'])
     lvals, rvals = gen_tables(g, pres)
-    L = mkframe(lvals, pres, prefix='l')
-    R = mkframe(rvals, pres, prefix='r')
+    xl = xr = None
+    lo = ro = None
+    if job.get('attrs_nan'):        # requested output attributes whose columns hold missing values
+        xl = {'x': [None if i % 2 else 'v%d' % i for i in range(len(lvals))]}
+        xr = {'x': [None if i % 3 == 0 else 'w%d' % i for i in range(len(rvals))]}
+        lo, ro = ['x'], ['x', 's']
+    L = mkframe(lvals, pres, prefix='l', extra_cols=xl)
+    R = mkframe(rvals, pres, prefix='r', extra_cols=xr)
     tok = make_tokenizer(spec)
     f = make_filter(name, tok, meas, t, ae=job.get('ae', True), op='>=')
     if n_jobs != 1:
@@ -229,7 +235,7 @@ def w_ftables(job):
     nviol = calls = nontrivial = 0
     results = []
     if job.get('tables', True):
-        out = call_filter_tables(f, L, R, n_jobs=n_jobs, score=False if name == 'Overlap' else None)
+        out = call_filter_tables(f, L, R, lo, ro, n_jobs=n_jobs, score=False if name == 'Overlap' else None)
         calls += 1
         results.append(('filter_tables', pairs_of(out, L, R)))
     if job.get('candset'):
@@ -281,3 +287,51 @@ def w_ftables(job):
 
 def _gkey(g):
     return ','.join('%s=%s' % (k, g[k]) for k in sorted(g) if k not in ('L', 'R'))
+
+
+def w_ftables_edit(job):
+    """filter_tables / filter_candset under EDIT_DISTANCE on complete string tables: every pair within the
+    threshold that shares a q-gram must be listed / kept."""
+    prop = job.get('prop', 'C04')
+    pres = PRESENTATIONS[job.get('pres', 0)]
+    q, padding, t, name = job['q'], job['padding'], job['t'], job['filter']
+    n_jobs = job.get('n_jobs', 1)
+    S = [''.join(p) for l in range(job['maxlen'] + 1) for p in itertools.product(job['alpha'], repeat=l)]
+    if job.get('order') == 'rev':
+        S = S[::-1]
+    L = mkframe(S, pres, prefix='l')
+    R = mkframe(S, pres, prefix='r')
+    if n_jobs != 1:
+        sched.install()
+        sched.CTL.reset()
+    ref = QgramTokenizer(qval=q, padding=padding, return_set=False)
+    grams = [set(ref.tokenize(s_)) for s_ in S]
+    f = make_filter(name, QgramTokenizer(qval=q, padding=padding, return_set=False), 'EDIT_DISTANCE', t)
+    results = []
+    out = call_filter_tables(f, L, R, n_jobs=n_jobs)
+    results.append(('filter_tables', pairs_of(out, L, R)[0]))
+    if job.get('candset'):
+        import pandas as pd
+        cs = [(a, b) for a in L['id'].tolist() for b in R['id'].tolist()]
+        cand = pd.DataFrame({'_id': list(range(len(cs))), 'l_id': [c[0] for c in cs], 'r_id': [c[1] for c in cs]})
+        oc = lib(f.filter_candset, cand, 'l_id', 'r_id', L, R, 'id', 'id', 's', 's', n_jobs, False)
+        results.append(('filter_candset', pairs_of(oc.drop(columns=['_id']), L, R)[0]))
+    viol = []
+    nviol = nontrivial = 0
+    for api, got in results:
+        for i, a in enumerate(S):
+            for j, b in enumerate(S):
+                if lev(a, b) <= t and (grams[i] & grams[j]):
+                    nontrivial += 1
+                    if (i, j) not in got:
+                        nviol += 1
+                        if len(viol) < MAXV:
+                            viol.append({'key': '%s|edit-%s|%s|q%d|pad%s|%r|%s|%s' % (prop, api, name, q, padding, t, a, b),
+                                         'what': '%s: %sFilter(EDIT_DISTANCE, %r, q=%d, padding=%s).%s (n_jobs=%d) drops '
+                                                 '%r / %r (distance %d, sharing a q-gram)' % (
+                                                     prop, name, t, q, padding, api, n_jobs, a, b, lev(a, b)),
+                                         'detail': {}})
+    return {'cases': len(S) ** 2 * len(results), 'calls': len(results), 'nontrivial': nontrivial,
+            'outcomes': {'must-kept': nontrivial - nviol, 'kept': sum(len(g) for _, g in results)},
+            'extra': {'violations': nviol}, 'viol': viol,
+            'sample': {'filter': name, 'q': q, 'padding': padding, 'threshold': t, 'strings': len(S)}}
